@@ -52,6 +52,12 @@ def gen_cases(ctx, rng):
             if rng.chance(2, 3):
                 reqs.append(A.req("POST", "/proxies/%s/toxics" % nm, A.J({"type": rng.choice(["latency", "timeout", "bandwidth"]), "name": "t",
                                                                          "attributes": {}})))
+            if rng.chance(1, 3):
+                # several toxics stacked on each direction (a reset must remove every one of them, not every other one)
+                for j in range(rng.range(2, 6)):
+                    reqs.append(A.req("POST", "/proxies/%s/toxics" % nm, A.J({"type": rng.choice(["latency", "noop", "slicer", "slow_close"]), "name": "s%d" % j,
+                                                                             "stream": rng.choice(["upstream", "downstream", "downstream"]), "attributes": {}})))
+                stats["stacked_toxics"] = stats.get("stacked_toxics", 0) + 1
         reps = rng.range(1, 4)
         for _ in range(reps):
             reqs.append(A.req("POST", "/populate", A.J(entries)))
@@ -171,7 +177,10 @@ def tcp_scenarios(ctx, n):
             ops += [T.api("POST", "/populate", [e2]), {"op": "recv", "id": "c1", "n": 1, "ms": 1500},
                     {"op": "dial", "id": "c2", "addr": "127.0.0.1:%d" % px}, {"op": "bindcheck", "port": px}]
         else:
-            ops += [T.api("POST", "/reset"), {"op": "send", "id": "c1", "n": 300}, {"op": "recv", "id": "c1", "n": 300, "ms": 1500},
+            # several toxics stacked on the direction of the reply: after the reset the live connection passes data unmodified (at once)
+            for j in range(rng.range(0, 4)):
+                ops.append(T.api("POST", "/proxies/p/toxics", {"type": "latency", "name": "l%d" % j, "attributes": {"latency": 700}}))
+            ops += [T.api("POST", "/reset"), {"op": "send", "id": "c1", "n": 300}, {"op": "recv", "id": "c1", "n": 300, "ms": 500},
                     T.api("GET", "/proxies/p/toxics")]
         cases.append({"ops": ops, "group": g, "kind": kind})
     results = T.run_tcp(ctx, cases, "c17")
